@@ -55,6 +55,31 @@ func baseWdeep() []*SvcSpec {
 	return []*SvcSpec{s0, s1}
 }
 
+// baseWnodex: the Node interface declares a second field, which every Node type then has - fields of the merged schema like any
+// other. (A Node type two services share would declare that field twice and be refused: the services of this set share no type.)
+func baseWnodex() []*SvcSpec {
+	s0, s1 := newSvc("http://s0"), newSvc("http://s1")
+	s0.NodeExtra, s1.NodeExtra = "createdAt: String", "createdAt: String"
+	s0.addType("UA", "Node", "uname: String")
+	s0.Query = []string{"uas: [UA!]!"}
+	s1.addType("RB", "Node", "body: String")
+	s1.Query = []string{"rbs: [RB!]!"}
+	return []*SvcSpec{s0, s1}
+}
+
+// baseWroots: the service listed second names its root types itself (schema { query: RootQuery mutation: RootMutation }).
+func baseWroots() []*SvcSpec {
+	s0, s1 := newSvc("http://s0"), newSvc("http://s1")
+	s0.addType("UA", "Node", "uname: String")
+	s0.Query = []string{"uas: [UA!]!"}
+	s0.Mut = []string{"mkUA(name: String): UA!"}
+	s1.RootPrefix = "Root"
+	s1.addType("RB", "Node", "body: String")
+	s1.Query = []string{"rbs: [RB!]!"}
+	s1.Mut = []string{"addRB(body: String): RB!"}
+	return []*SvcSpec{s0, s1}
+}
+
 // baseWfan: one entity with three self references owned by the root service and one scalar
 // at each of two other services, so that the child steps of one level alternate services.
 func baseWfan() []*SvcSpec {
@@ -380,11 +405,18 @@ type DataAtom struct {
 	Apply func(d *DataOpts)
 }
 
+// NamedDataAtoms can be asked for by name only (no enumeration includes them)
+var NamedDataAtoms = []DataAtom{
+	// lists of 150 different entities: more lookups on one level than any round number a batch might be cut at
+	{"data-len150-distinct", func(d *DataOpts) { d.ListLen = 150; d.Pool = 211 }},
+}
+
 var DataAtoms = []DataAtom{
 	{"data-empty-root-list", func(d *DataOpts) { d.EmptyRootList = true }},
 	{"data-dup-in-list", func(d *DataOpts) { d.DupInList = true }},
 	{"data-null-entries", func(d *DataOpts) { d.NullEntries = true }},
 	{"data-null-refs", func(d *DataOpts) { d.NullRefs = true }},
+	{"data-only-null-entries", func(d *DataOpts) { d.NullEntries = true; d.OnlyNullEntries = true }},
 	{"data-len1", func(d *DataOpts) { d.ListLen = 1 }},
 	{"data-len5", func(d *DataOpts) { d.ListLen = 5 }},
 	{"data-len20", func(d *DataOpts) { d.ListLen = 20 }},
@@ -480,6 +512,11 @@ func dataAtomByName(n string) *DataAtom {
 			return &DataAtoms[i]
 		}
 	}
+	for i := range NamedDataAtoms {
+		if NamedDataAtoms[i].Name == n {
+			return &NamedDataAtoms[i]
+		}
+	}
 	return nil
 }
 
@@ -495,6 +532,10 @@ func (d WorldDesc) Build() (*World, error) {
 		ss = baseWdeep()
 	case "Wfan":
 		ss = baseWfan()
+	case "Wnodex":
+		ss = baseWnodex()
+	case "Wroots":
+		ss = baseWroots()
 	default:
 		return nil, fmt.Errorf("unknown base %s", d.Base)
 	}
